@@ -22,6 +22,21 @@ TRUSTED_BASE = [
 ]
 
 
+TRUSTED_EXTRA = {
+    "C01": ["rustc as oracle for 'compiles without errors or warnings' (its type, borrow and lint checking is observed, not modelled)"],
+    "C11": ["syn's split_for_impl / where-clause printing, read back from the real expansion (harness/vtool)"],
+    "C12": ["syn's split_for_impl / where-clause printing, read back from the real expansion incl. helper impls nested in bodies (harness/vtool)"],
+    "C13": ["classification of educe's diagnostics by message prefix (vlib/attr.py MESSAGE_CLASSES)"],
+    "C14": ["the canonical oracle records of the spelling theorems are a small model of syn restricted to the documented token forms"],
+    "C16": ["the translator's tables of hash-ordered collections, iterated maps and unknown macros (harness/vtool/src/extract.rs; fails closed on unknown macros such as thread_local!)"],
+    "C17": ["the translator's table of panic-capable expressions, self-calls and open loops (extract.rs); syn's own parsers assumed panic-free up to the recorded known finding"],
+    "C18": ["the translator's cfg walk and crate-path resolver (harness/vtool/src/gates.rs; fails closed on unresolvable paths)",
+            "rustc as oracle per feature subset; cargo's feature unification emulated by the closure over Cargo.toml's [features]"],
+    "C19": ["the reference-position analysis of Names.lean (binders, `.`/`::` continuations, attributes) is a syntactic approximation of Rust's name resolution",
+            "rustc as oracle in hostile naming contexts"],
+}
+
+
 class Lock:
     def __init__(self, name):
         os.makedirs(BUILD, exist_ok=True)
@@ -298,7 +313,7 @@ def finish(prop_id, tier, t0, proof, tie, extra_assumptions=None):
         "obligations": max(proof["obligations"], 1),
         "discharged": proof["discharged"],
         "checker_cmd": "cd /verif/lean && lake build EduceModel.Props.%s && lake env lean <#print axioms on each theorem> (vlib/common.py: proof_obligations)" % prop_id,
-        "trusted_base": TRUSTED_BASE,
+        "trusted_base": TRUSTED_BASE + TRUSTED_EXTRA.get(prop_id, []),
         "theorems": proof["theorems"],
         "leanchecker": proof.get("leanchecker", "quick tier: not run (thorough tier re-checks the compiled module with leanchecker)"),
         "evaluations": tie.get("evaluations", 0),
